@@ -83,6 +83,7 @@ def run_vector(v):
     tr['back'] = {'h': False, 'v': [], 'idx': [], 'strict': False,
                   'exc': ''}
     tr['synth'] = {'h': False, 'got': [], 'bgot': [], 'exc': ''}
+    tr['dt64'] = {'h': False, 'got': [], 'exc': ''}
     kind = v['kind']
     try:
         if kind == 'cf':
@@ -123,6 +124,18 @@ def run_vector(v):
         tr['res'] = 'raised'
         tr['exc'] = '%s: %s' % (type(ex).__name__, str(ex)[:100])
         return tr
+    # the numpy form of the same instants: getTimes(datetype='datetime64[us]')
+    tr['dt64'] = {'h': False, 'got': [], 'exc': ''}
+    try:
+        t64 = f.getTimes(datetype='datetime64[us]')
+        got = []
+        for x in np.asarray(t64).ravel():
+            d = x.astype('datetime64[us]').astype(object)
+            got.append([d.year, d.month, d.day, d.hour, d.minute, d.second,
+                        d.microsecond])
+        tr['dt64'] = {'h': True, 'got': got, 'exc': ''}
+    except Exception as ex:
+        tr['dt64']['exc'] = '%s: %s' % (type(ex).__name__, str(ex)[:100])
     # bounds=True for the IOAPI encodings
     if kind in ('tflag', 'sdate') and v.get('want_bounds'):
         try:
